@@ -111,6 +111,18 @@ def dispatch (op : String) (args : List SExp) : String :=
         | some b => Families.summary (parseFlat b)
         | none => "(bad-arg)")
      | none => "(bad-arg)")
+  | "cost", [.atom kind, .atom n] =>
+    (match n.toNat? with
+     | some k =>
+       if k > 4096 then "(model-skipped)" else
+       (match Families.family kind k with
+        | some b => (match parseFlat b with
+           | .ok (_, rest) => s!"consumed={b.length - rest.length}"
+           | .err e => showErr e
+           | .panic => "(panic)"
+           | .outOfFuel => "(fuel)")
+        | none => "(bad-arg)")
+     | none => "(bad-arg)")
   | "parse", [.atom h] =>
     (match hexToBytes h with
      | some b => showParsed bytesToHex (parseFlat b)
